@@ -48,13 +48,24 @@ RULE = ('option lists of length 0..7 are drawn with replacement from a per-case 
         'it; as real projects (program in C, static and shared library in C or C++, one target asking for opts.pthread() '
         'itself, raw words on targets and globally) every translation unit reports the predefined macros it was compiled '
         'under (exact set, so also what it must NOT see), the program reads a weak absolute symbol, every linked binary '
-        'is read back (symbol table, file type) and the command lines make prints are compared word by word.')
+        'is read back (symbol table, file type) and the command lines make prints are compared word by word. Search-path '
+        'variables: projects (C or C++) configured in environments where CPATH / C_INCLUDE_PATH / CPLUS_INCLUDE_PATH / '
+        'LIBRARY_PATH list 2..5 project directories (the ones the script names never first, a directory with a competing '
+        'header first; sometimes a second variable with other directories); the script names a plain and a system=True '
+        'directory by absolute path as includes=[path], includes=[header_directory(path)], opts.include_dir in '
+        'compile_options= or global_options, sometimes also one of the compiler\'s own default directories, under '
+        'warnings-as-errors; built by make WITHOUT and WITH those variables (order drawn); each build must behave like the '
+        'compiler called directly, in the same environment, with one -I/-isystem per named non-default directory (default '
+        'list read off cc -E -v in a clean environment), and the printed compile line must carry exactly one such option per '
+        'named non-default directory.')
 TRUSTED = ('R model: accepted-flag grammar of Misc/Options.v, validated against gcc 12 and clang 14 on this run '
            '(exit status of -fsyntax-only / link probes)',
            'effects (predefined macros, warnings-as-errors, entry point, sections) are observed on the real compilers, '
            'not proved',
            'the harness expands the per-target flags variable into the global one the way Make/Ninja do (C06 covers '
-           'the expansion itself) when it ties _get_flags')
+           'the expansion itself) when it ties _get_flags',
+           'search-path variables: the reference is the real cc / c++ called with the -I / -isystem words the include_dir '
+           'options stand for, in the environment make runs in')
 EXPLANATION = ('Level is partial by design: translation tables, option_list de-duplication and merge order are proved '
                'on the model; acceptance and effect by gcc/clang are oracles run on every check. Linux/ELF target, '
                'C and C++ only (no Fortran/Java/ObjC compiler installed; MSVC tables not modelled).')
@@ -1700,6 +1711,259 @@ def stage_system_sides(rep, rng, cs, thorough, extra=0):
     rep.stage('system:flag variables stay on their side', projects=len(jobs), ok=n_ok)
 
 
+# ----------------------------------------------------------------------------- search-path variables of the environment
+# The compiler driver reads directory lists from the environment: CPATH (every language, searched after -I), C_INCLUDE_PATH /
+# CPLUS_INCLUDE_PATH (one language each, searched as system directories) and LIBRARY_PATH (link time).  A project that is
+# configured in a shell where such a variable lists project directories (several entries) and names some of those
+# directories itself (absolute path) must still get its include_dir options translated: the Makefile is used from shells
+# without those variables too, -I outranks CPATH entries, and system=True must keep the header's diagnostics quiet.
+SEARCH_VARS = ['CPATH', 'C_INCLUDE_PATH', 'CPLUS_INCLUDE_PATH', 'LIBRARY_PATH']
+SEARCH_LANG_VAR = {'c': 'C_INCLUDE_PATH', 'c++': 'CPLUS_INCLUDE_PATH'}
+SEARCH_FORMS = ['string', 'header_directory', 'compile_options', 'global_options']
+SEARCH_HEADERS = {'old': ('cfg.h', '#define CFG_VALUE 1\n'), 'new': ('cfg.h', '#define CFG_VALUE 2\n'),
+                  'vendor': ('vendor.h', 'static inline int vendor_lt(int a, unsigned b) { int scratch; return a < b; }\n'),
+                  'third': ('third.h', '#define THIRD_VALUE 3\n'), 'decoy': ('cfg.h', '#define CFG_VALUE 9\n')}
+SEARCH_MAIN = ('#include <stdio.h>\n#include <cfg.h>\n#include <vendor.h>\n'
+               'int main(void) { printf("cfg=%d vend=%d\\n", CFG_VALUE, vendor_lt(1, 2u)); return 0; }\n')
+FINDING_LANG_PATH = 'include-dir-listed-in-language-include-path-variable'
+
+
+def clean_search_env(env):
+    return {k: v for k, v in env.items() if k not in SEARCH_VARS and k not in ('CFLAGS', 'CPPFLAGS', 'CXXFLAGS', 'LDFLAGS', 'LDLIBS')}
+
+
+def compiler_default_dirs(env0):
+    """the compiler's own include directories per language, read off `cc -E -v` run WITHOUT any search-path variable"""
+    res = {}
+    for lang, tool in (('c', 'cc'), ('c++', 'c++')):
+        p = subprocess.run([tool, '-E', '-x', lang, '-', '-v'], input='', env=clean_search_env(env0), capture_output=True, text=True)
+        dirs, on = [], False
+        for line in p.stderr.split('\n'):
+            if line.startswith('#include <...> search starts here'):
+                on = True
+            elif line.startswith('End of search list'):
+                on = False
+            elif on and line.strip():
+                dirs.append(os.path.normpath(line.strip()))
+        res[lang] = dirs
+    return res
+
+
+def gen_search_case(rng, var, defaults):
+    """One configuration: the variable `var` lists 3..5 project directories at configure time, the ones the script names
+    never first (a directory with a competing header is); sometimes a second variable lists directories the script does
+    not name.  The script names a plain directory and a system=True directory (each named directory is an entry of at most
+    one variable), each in one of the forms includes=[path], includes=[header_directory(path)], opts.include_dir in
+    compile_options= / in global_options, and sometimes one of the compiler's own default directories."""
+    lang = rng.choice(['c', 'c', 'c++'])
+    listed = rng.choice([['new', 'vendor'], ['new', 'vendor'], ['new'], ['vendor']])
+    tail = listed + (['third'] if rng.random() < 0.5 else [])
+    rng.shuffle(tail)
+    cenv = {var: ['old'] + tail}
+    if rng.random() < 0.5:
+        other = rng.choice([v for v in SEARCH_VARS if v != var])
+        cenv[other] = ['decoy'] + (['third'] if rng.random() < 0.5 else [])
+    named = [{'dir': 'new', 'system': False, 'form': rng.choice(SEARCH_FORMS)},
+             {'dir': 'vendor', 'system': True, 'form': rng.choice(SEARCH_FORMS[1:])}]
+    if rng.random() < 0.4 and defaults.get(lang):
+        usable = [d for d in defaults[lang] if os.path.isdir(d)]
+        if usable:
+            named.append({'dir': rng.choice(usable), 'system': rng.random() < 0.5, 'form': rng.choice(SEARCH_FORMS[1:])})
+    rng.shuffle(named)
+    return {'lang': lang, 'configure_env': cenv, 'named': named,
+            'make_envs': rng.choice([['without', 'with'], ['with', 'without']])}
+
+
+def include_flag_count(argv, d):
+    """how many -I / -isystem options of a command line name the directory d (joined and separate spellings)"""
+    n = 0
+    for k, a in enumerate(argv):
+        if a in ('-I', '-isystem', '-idirafter', '-iquote'):
+            n += k + 1 < len(argv) and os.path.normpath(argv[k + 1]) == d
+        else:
+            for pre in ('-isystem', '-idirafter', '-iquote', '-I'):
+                if a.startswith(pre) and len(a) > len(pre):
+                    n += os.path.normpath(a[len(pre):]) == d
+                    break
+    return n
+
+
+def search_project(root, tag, case, env0, defaults):
+    """Configure one such project with the real bfg9000 under the variables, build it with make WITHOUT and WITH them, run
+    the program.  Reference: the compiler driver called directly, in the same environment as make, with one -I / -isystem
+    per non-default directory the script names (and the script's warning options) - the project must behave like it.
+    Returns [(what, replay, classes)]."""
+    import shlex
+    d = os.path.join(root, 'senv-' + tag)
+    shutil.rmtree(d, ignore_errors=True)
+    src, bld = os.path.join(d, 'src'), os.path.join(d, 'build')
+    os.makedirs(src)
+    lang = case['lang']
+
+    def path(name):
+        return name if name.startswith('/') else os.path.join(d, 'opt', name, 'include')
+    for name, (hdr, text) in SEARCH_HEADERS.items():
+        os.makedirs(path(name))
+        with open(os.path.join(path(name), hdr), 'w') as f:
+            f.write(text)
+    main = 'main.c' if lang == 'c' else 'main.cpp'
+    L, includes, copts, ref = ["project('c16env', intermediate_dirs=False)"], [], [], {'global_options': [], 'includes': [], 'compile_options': []}
+    for k, nd in enumerate(case['named']):
+        p = path(nd['dir'])
+        flag = [] if p in defaults[lang] else (['-isystem', p] if nd['system'] else ['-I' + p])
+        if nd['form'] == 'string':
+            includes.append(repr(p))
+            ref['includes'] += flag
+            continue
+        L.append('d%d = header_directory(%r%s)' % (k, p, ', system=True' if nd['system'] else ''))
+        if nd['form'] == 'header_directory':
+            includes.append('d%d' % k)
+            ref['includes'] += flag
+        elif nd['form'] == 'compile_options':
+            copts.append('opts.include_dir(d%d)' % k)
+            ref['compile_options'] += flag
+        else:
+            L.append('global_options([opts.include_dir(d%d)], lang=%r)' % (k, lang))
+            ref['global_options'] += flag
+    copts.append("opts.warning('all', 'extra', 'error')")
+    L.append("executable('prog', files=[%r], includes=[%s], compile_options=[%s])" % (main, ', '.join(includes), ', '.join(copts)))
+    bfg = '\n'.join(L) + '\n'
+    project_files = {'build.bfg': bfg, main: SEARCH_MAIN}
+    for k, v in project_files.items():
+        with open(os.path.join(src, k), 'w') as f:
+            f.write(v)
+    refflags = ref['global_options'] + ref['includes'] + ref['compile_options'] + ['-Wall', '-Wextra', '-Werror']
+    base = clean_search_env(env0)
+    cenv = dict(base)
+    for var, names in case['configure_env'].items():
+        cenv[var] = ':'.join(path(n) for n in names)
+    shown = {var: cenv[var].replace(d, '<root>') for var in case['configure_env']}
+    replay = {'kind': 'search-path-env', 'case': case, 'build.bfg': bfg.replace(d, '<root>'), 'configure_environment': shown,
+              'headers': {'<root>/opt/%s/include/%s' % (n, h): t for n, (h, t) in SEARCH_HEADERS.items()}, main: SEARCH_MAIN,
+              'replay_hint': './check C16 --replay <this file> rebuilds the project under a fresh <root> and runs it again'}
+    res = []
+
+    def known(nd):
+        """the open finding: the directory is an entry of the include-path variable of the target's own language (and of no
+        other variable)"""
+        return [v for v, names in case['configure_env'].items() if nd['dir'] in names] == [SEARCH_LANG_VAR[lang]]
+    try:
+        p = subprocess.run(['bfg9000', 'configure-into', src, bld, '--backend=make', '--no-resolve-packages'],
+                           env=cenv, capture_output=True, text=True, timeout=300)
+        if p.returncode != 0:
+            return [('configure fails: %s' % (p.stderr or p.stdout)[-400:], dict(replay, stderr=p.stderr[-2000:]), ())]
+        tool = 'cc' if lang == 'c' else 'c++'
+        argv_checked = False
+        for which in case['make_envs']:
+            menv = dict(cenv) if which == 'with' else dict(base)
+            for dp, _, fns in os.walk(bld):
+                for fn in fns:
+                    if fn == 'prog' or fn.endswith('.o'):
+                        os.remove(os.path.join(dp, fn))
+            m = subprocess.run(['make', '-C', bld, '--no-print-directory'], env=menv, capture_output=True, text=True, timeout=300)
+            # the command line make printed for the translation unit
+            argv = None
+            for line in m.stdout.split('\n'):
+                try:
+                    a = shlex.split(line)
+                except ValueError:
+                    continue
+                if a and os.path.basename(a[0]) in ('cc', 'gcc', 'c++', 'g++') and '-c' in a and any(os.path.basename(x) == main for x in a):
+                    argv = a
+            missing = []
+            if not argv_checked:
+                argv_checked = True
+                if argv is None:
+                    res.append(('make printed no compile command line for %s: %s' % (main, (m.stdout + m.stderr)[-400:]),
+                                dict(replay, make=(m.stdout + m.stderr)[-3000:]), ()))
+                for nd in case['named'] if argv is not None else []:
+                    pth = path(nd['dir'])
+                    if pth in defaults[lang]:
+                        continue               # dropping a directory the compiler searches anyway is legitimate
+                    n = include_flag_count(argv, pth)
+                    if n == 0:
+                        missing.append(nd)
+                    if n != 1:
+                        res.append(('the compile command line has %d -I/-isystem options for the directory %s the script names '
+                                    'with %s (system=%s); that directory is an entry of %s at configure time and not one of the '
+                                    "compiler's own directories %r: %r" % (
+                                        n, pth.replace(d, '<root>'), nd['form'], nd['system'],
+                                        [v for v, names in case['configure_env'].items() if nd['dir'] in names] or 'no variable',
+                                        defaults[lang], [x.replace(d, '<root>') for x in argv]),
+                                    dict(replay, argv=argv, directory=pth, count=n),
+                                    (FINDING_LANG_PATH,) if n == 0 and known(nd) else ()))
+            else:
+                missing = [nd for nd in case['named'] if argv is not None and path(nd['dir']) not in defaults[lang] and
+                           include_flag_count(argv, path(nd['dir'])) == 0]
+            # reference: the driver itself with the flags the options stand for, same environment
+            exe = os.path.join(d, 'ref-' + which)
+            r = subprocess.run([tool, '-x', lang] + refflags + [os.path.join(src, main), '-o', exe], env=menv, capture_output=True,
+                               text=True, timeout=120)
+            want = subprocess.run([exe], capture_output=True, text=True, timeout=60).stdout.strip() if r.returncode == 0 else None
+            if want is None:
+                res.append(('reference compile fails (harness): %s' % r.stderr[-300:], dict(replay, reference=refflags), ()))
+                continue
+            envtxt = ('WITH the variables of configure time' if which == 'with' else 'WITHOUT those variables')
+            if m.returncode != 0:
+                out = m.stdout + m.stderr
+                # explained by the open finding only when the build fails for lack of exactly such a directory's header
+                # in the environment that does not list it
+                hdrs = [SEARCH_HEADERS[nd['dir']][0] for nd in missing if known(nd) and nd['dir'] in SEARCH_HEADERS]
+                cl = (FINDING_LANG_PATH,) if which == 'without' and any(('fatal error: %s: No such file' % h) in out for h in hdrs) else ()
+                res.append(('make run %s fails, the compiler called directly with %r builds a program that prints %r: %s' % (
+                    envtxt, [x.replace(d, '<root>') for x in refflags], want, (m.stderr or m.stdout)[-400:].replace(d, '<root>')),
+                    dict(replay, make_environment=which, make=out[-3000:], reference=refflags, expected=want), cl))
+                continue
+            got = subprocess.run([os.path.join(bld, 'prog')], capture_output=True, text=True, timeout=60).stdout.strip()
+            if got != want:
+                res.append(('built %s the program prints %r; the compiler called directly with one -I/-isystem per named '
+                            'directory (%r) gives %r (cfg.h of the named directory defines 2, the one listed first in the '
+                            'variable 1): compile line %r' % (envtxt, got, [x.replace(d, '<root>') for x in refflags], want,
+                                                              [x.replace(d, '<root>') for x in (argv or [])]),
+                            dict(replay, make_environment=which, got=got, expected=want, argv=argv, reference=refflags), ()))
+        return res
+    finally:
+        shutil.rmtree(d, ignore_errors=True)
+
+
+def search_what(case, what):
+    return ('system: configured with %s, %s target with include directories by absolute path (%s): %s [variable entries and '
+            'directories: NAME = <root>/opt/NAME/include]' % (
+        ' '.join('%s=%s' % (v, ':'.join(names)) for v, names in case['configure_env'].items()), case['lang'].upper(),
+        ', '.join('%s%s via %s' % (nd['dir'], ' system=True' if nd['system'] else '', nd['form']) for nd in case['named']), what))
+
+
+def stage_system_search_env(rep, rng, cs, thorough, extra=0):
+    """Projects configured in environments whose search-path variables list project directories; see search_project."""
+    env0 = common.impl_env()
+    defaults = compiler_default_dirs(env0)
+    if not all(defaults.get(l) for l in ('c', 'c++')):
+        rep.fail('system setup: cannot read the default include directories of cc / c++', {'obligation': 'system setup'},
+                 found_input=False)
+        return
+    n = (16 if thorough else 6) + extra
+    variables = []
+    while len(variables) < n:
+        block = list(SEARCH_VARS) + ['CPATH']
+        rng.shuffle(block)
+        variables += block
+    jobs = [('%d' % k, gen_search_case(rng, variables[k], defaults)) for k in range(n)]
+    with ThreadPoolExecutor(max_workers=4) as ex:
+        res = list(ex.map(lambda j: search_project(cs.root, j[0], j[1], env0, defaults), jobs))
+    n_ok = 0
+    for (tag, case), r in zip(jobs, res):
+        rep.case('search-env:%r' % (case,), True)
+        for v in case['configure_env']:
+            rep.count('system:search-path-variable:' + v)
+        rep.count('system:search-path-variable:language:' + case['lang'])
+        for nd in case['named']:
+            rep.count('system:search-path-variable:named-as:' + nd['form'])
+        n_ok += not r
+        for what, replay, classes in r[:3]:
+            rep.fail(search_what(case, what), replay, classes=classes)
+    rep.stage('system:search-path variables at configure time', projects=len(jobs), ok=n_ok)
+
+
 # ----------------------------------------------------------------------------- entry points
 def run(rep):
     rng = random.Random(rep.seed)
@@ -1718,7 +1982,7 @@ def run(rep):
         cs = Compilers(root)
         rbad = stage_r_grammar(rep, rng, cs, thorough)
         found = stage_oracle(rep, rng, cs, thorough or bool(dis))   # wider probe set when the tie broke
-        found = (found or 0) + stage_oracle_default_dirs(rep, cs)
+        found = len(found or []) + stage_oracle_default_dirs(rep, cs)
         found += stage_oracle_pch(rep, rng)
         found += stage_oracle_placement(rep, rng)
         found += stage_oracle_sides(rep, rng, 400 if thorough else (120 if dis else 40))
@@ -1727,6 +1991,7 @@ def run(rep):
         stage_system_link(rep, rng, cs, thorough)
         stage_system_words(rep, rng, cs, thorough)
         stage_system_sides(rep, rng, cs, thorough, extra=4 if dis else 0)
+        stage_system_search_env(rep, rng, cs, thorough)
     finally:
         shutil.rmtree(root, ignore_errors=True)
     if dis and not rep.n_with_input:
@@ -1740,6 +2005,16 @@ def run(rep):
 def replay(rep, path):
     r = json.load(open(path))
     print(json.dumps(r, indent=1)[:2000])
+    if r.get('kind') == 'search-path-env' and 'case' in r:
+        # the project of the replay file again, under a fresh root
+        root = common.scratch('c16')
+        try:
+            env0 = common.impl_env()
+            for what, rp, classes in search_project(root, 'replay', r['case'], env0, compiler_default_dirs(env0))[:3]:
+                rep.fail(search_what(r['case'], what), rp, classes=classes)
+        finally:
+            shutil.rmtree(root, ignore_errors=True)
+        return
     if 'option' not in r:
         return run(rep)
     spec = canon_spec(r['option'])
